@@ -38,6 +38,9 @@ def pool(rng):
         docs.append(gendoc.random_document(rng).encode('utf-8'))
     big = b''.join(rng.sample(c, 6))            # several pool slabs worth of tokens
     docs.append(big[:60000])
+    for _ in range(8):
+        docs.append(gen.state_heavy(rng))       # heavy users of hidden state (random numbers, counters, label tables)
+    docs.append(gen.edge_source(rng))
     return [d.split(b'\0')[0] for d in docs]
 
 
